@@ -112,7 +112,10 @@ class bspline(object):
                     # IDL silently clips out-of-range subscripts.
                     #
                     xspot[xspot > nx - 1] = nx - 1
-                bkpt = x[xspot].astype('f')
+                #
+                # Every n-th point in order of x, not in the order given.
+                #
+                bkpt = np.sort(x)[xspot].astype('f')
             else:
                 raise ValueError('No information for bkpts.')
         imin = bkpt.argmin()
